@@ -4,7 +4,11 @@ mod cipher;
 mod conn;
 mod hash;
 mod mock;
-mod refcodec;
+#[allow(unused_imports)]
+pub(crate) use hx_core::refcodec;
+#[allow(unused_imports)]
+pub(crate) use hx_core::tcpclient;
+mod listener;
 mod rl;
 mod wire;
 
@@ -19,6 +23,7 @@ fn main() {
         "conn" => conn::main(&args[2..]),
         "conn-timed" => conn::main_timed(&args[2..]),
         "hash" => hash::main(&args[2..]),
+        "listener" => listener::main(&args[2..]),
         "rl" => rl::main(&args[2..]),
         "wire" => wire::main(&args[2..]),
         _ => {
